@@ -452,6 +452,7 @@ def step (ctx : Ctx) (lhs : String) (implObs : String := "") : Ctx × String :=
   | ["restart"] => (ctx, "ok")
   | ["dircheck"] => (ctx, "ok")
   | "xhttp" :: _ => (ctx, "")
+  | "xcmp" :: _ => (ctx, "")
   | "open" :: _ => (ctx, "")
   | "nowalk" :: _ => (ctx, "empty")
   | "expect" :: _ => (ctx, "")
